@@ -17,6 +17,9 @@
 //! need = threshold, minus one if the local node is a delegate. If |valid| < need the call
 //! returns `FetchResult::Failed` or `Err` and the complete ref snapshot is unchanged.
 //! Not demanded: that a fetch with enough valid delegates succeeds or changes anything.
+//!
+//! Second pass: clones (empty fetcher storage) through the node's worker — see
+//! `chk-node/src/bin/c02w.rs`, run as a sub-process and merged into this check's evidence.
 
 #[path = "../fetchfix.rs"]
 mod fetchfix;
@@ -224,7 +227,14 @@ fn main() {
     let ctx = Ctx::from_env("C02", "fault_enumeration");
     let thorough = ctx.tier == mcx::Tier::Thorough;
 
+    // Second pass (clones through the node's worker) lives in chk-node (`c02w`, it needs the
+    // radicle-node hooks); it is built next to this binary and run as a sub-process.
+    let c02w = std::env::current_exe().ok().and_then(|p| p.parent().map(|d| d.join("c02w"))).filter(|p| p.exists()).unwrap_or_else(|| machinery("c02w (worker-clone pass) is not built next to c02"));
     if let Some(w) = ctx.replay_witness() {
+        if w["pass"].as_str() == Some("worker-clone") {
+            let status = std::process::Command::new(&c02w).args(std::env::args().skip(1)).status().unwrap_or_else(|e| machinery(&format!("cannot run c02w: {e}")));
+            std::process::exit(status.code().unwrap_or(2));
+        }
         let cfg = FixCfg::from_json(&w["cfg"]);
         let seed = w["seed"].as_u64().unwrap_or(ctx.seed);
         let states = cfg.delegates.iter().map(|s| DState::parse(w["states"][KEY_NAMES[*s]].as_str().unwrap_or("equal"))).collect();
@@ -234,6 +244,14 @@ fn main() {
         eprintln!("replay outcome: {outcome}");
         ctx.finish_replay(vs);
     }
+
+    let worker_pass = std::process::Command::new(&c02w)
+        .args(["--tier", if thorough { "thorough" } else { "quick" }])
+        .env("C02W_SUBPASS", "1")
+        .env("VERIF_SEED", ctx.seed.to_string())
+        .stdout(std::process::Stdio::piped())
+        .spawn()
+        .unwrap_or_else(|e| machinery(&format!("cannot start c02w: {e}")));
 
     let cfgs = configs(thorough);
     let t_fix = std::time::Instant::now();
@@ -284,9 +302,24 @@ fn main() {
     for fx in &fixtures {
         let _ = std::fs::remove_dir_all(fx.root.path());
     }
+    // Collect the worker-clone pass.
+    {
+        let out = worker_pass.wait_with_output().unwrap_or_else(|e| machinery(&format!("c02w: {e}")));
+        let text = String::from_utf8_lossy(&out.stdout);
+        let line = text.lines().find_map(|l| l.strip_prefix("C02W-RESULT ")).unwrap_or_else(|| machinery(&format!("c02w ended ({}) without a result line", out.status)));
+        let v: Value = serde_json::from_str(line).unwrap_or_else(|e| machinery(&format!("c02w result: {e}")));
+        let sub: mcx::report::Violations = serde_json::from_value(v["violations"].clone()).unwrap_or_else(|e| machinery(&format!("c02w violations: {e}")));
+        for (fp, (ws, n)) in sub.by_fp {
+            let e = st.violations.by_fp.entry(fp).or_insert_with(|| (vec![], 0));
+            e.0.extend(ws);
+            e.1 += n;
+        }
+        cov.insert("worker_clone_pass".into(), v["coverage"].clone());
+    }
     ctx.finish(
         cov,
         &[
+            "second pass (worker_clone_pass): clones into an empty storage through the node's worker on both ends (hook H2 initiator + responder wired back to back); a clone also fetches the local node's own namespace, which therefore counts as a delegate with valid signed refs",
             "trusted: git upload-pack (spawned with the worker's exact command line), libgit2, the file system",
             "invalid-signature = honest child of the held sigrefs with one signature bit flipped; invalid-content = correctly signed blob that lists rad/sigrefs itself; missing = the namespace does not exist on the server",
             "the serving peer is d1; scope All; the local node's own namespace (when it is a delegate) is served honestly",
